@@ -86,3 +86,12 @@ PROPS["C11"] = dict(
     rule="all sequences of length <= 4 (quick) / 5 (thorough) over 18 operations (pushes with state, depth, value, ub in {0,1}^4 + pop + clear), each followed by len and a full drain, for NoDupFringe/total ranking (and SimpleFringe and a coarse ranking on two lengths); random sequences of length 5..2000 with small alphabets (1..12 states, 1..3 depths) and recycling-heavy push/pop mixes for both fringes and both rankings; non-trivial = a duplicate push, the same state at another depth, or a push after a pop (slot recycling) occurred; distinct = distinct sequence + fringe + ranking",
     trivial_tags=["exhaustive", "random"],
 )
+
+MDD_RULE = ("random TableDP instances (1..7 layers, 1..6 base states, 1..3 decisions, negative costs, dead ends, ties; depth embedded or not; identity or slack arc relaxation; "
+            "no / exact / slack rough bound; total or coarse ranking; optional same-state dominance rule) and Knapsack instances (2..7 items, optional (capacity, value) dominance); "
+            "4 compilations per instance: random reachable exact root (random walk), type exact / relaxed / restricted, width 1..4, incumbent in {none, OPT-1, OPT, OPT+1, random}, "
+            "LEL and frontier cut-sets, optional pre-filled threshold cache, optional cutoff at poll 1..6, 0..3 earlier compilations on the same diagram object; "
+            "non-trivial = a merge happened, the diagram is inexact, a cutoff fired, cache content or a dominance verdict was consumed; distinct = distinct instance + request + history")
+MDD_TRIVIAL = ["lel", "frontier", "pooled", "exact", "relaxed", "restricted", "history", "knapsack", "dominance"]
+MDD_TB = TB_COMMON + ["user code (Problem / Relaxation / ranking / dominance rule) is a parameter of the model; the harness families are re-implemented in Lean (Families.lean) from the same instance text",
+                      "FxHashMap iteration order: only `best` ties depend on it (ebpMust / ebpMay relation); slice::sort_unstable_by returns a sorted permutation; isize saturating arithmetic = clamp"]
